@@ -417,6 +417,11 @@ class World:
             inner = payload
 
             def payload(*args, **kwargs):
+                # the synchronous part of the payload is payload code as well: it belongs on the
+                # flavour's one thread, between checkpoints like everything else
+                with world.section(fl, spec["pid"]):
+                    log("step", spec["pid"], what="prefix")
+                    time.sleep(0)
                 return inner(*args, **kwargs)
         payload.vh_pid = spec["pid"]
         if key is not None:
